@@ -322,7 +322,7 @@ func runC20(cx *CheckCtx) {
 			cx.violated("put-get-key", "container.PutContainerSize/shape", "PutContainerSize no longer stores the estimation, the per-node epoch list and removes outdated estimations", w.pos(pm.Fn.Pos()))
 		} else {
 			v := unserialize(put.Args[2])
-			cx.decide(put.Args[1] == wantKey && tb.field(v, "From") == pub && tb.field(v, "Size") == paramTerm(tb, pm, "usedSize"), "put-get-key", "container.PutContainerSize/key", "'cnr'‖bytes(epoch)‖cid‖ripemd160(key)[:10] → {key, size}", "the estimation is stored under "+put.Args[1].pretty()+" → "+v.pretty(), put.Where(w))
+			cx.decide(put.Args[1] == wantKey && v.Op == "struct" && len(v.Args) == 2 && v.Args[0] == pub && v.Args[1] == paramTerm(tb, pm, "usedSize"), "put-get-key", "container.PutContainerSize/key", "'cnr'‖bytes(epoch)‖cid‖ripemd160(key)[:10] → {key, size}", "the estimation is stored under "+put.Args[1].pretty()+" → "+v.pretty(), put.Where(w))
 			// D3 gate
 			okG := pa.holdsAt(put.In, pa.litW(pub))
 			okM := false
